@@ -163,6 +163,92 @@ struct Model
     }
     return constant(orc::eye(l.dim));
   }
+  // ---- set-valued semantics. Where pieces meet with a jump (a local concatenation whose second operand does not
+  // start at the identity, a global concatenation, crop boundaries that fall on such junctions, zero-length operands)
+  // the specification x(t) is two-valued, and a program can nest several such places (x1.end() of a curve that ends on
+  // a jump is used by a later concat_local, ...). The library may legitimately pick either one-sided value at each of
+  // them independently, so the model returns every combination (deduplicated; a single element wherever the curve is
+  // continuous) and the monitor asks that the library value is one of them.
+  static bool same(const Ev & a, const Ev & b)
+  {
+    const L s = 1 + orc::maxabs(a.G);
+    return orc::maxabs(a.G - b.G) <= 1e-13L * s && orc::maxabs(a.vel - b.vel) <= 1e-12L * (1 + orc::maxabs(a.vel))
+        && orc::maxabs(a.acc - b.acc) <= 1e-12L * (1 + orc::maxabs(a.acc));
+  }
+  static constexpr size_t CAP = 2048;
+  mutable bool overflow       = false;  // a candidate set was truncated: the evaluation is not judged (counted)
+  void push(std::vector<Ev> & out, const Ev & e) const
+  {
+    for (const Ev & o : out)
+      if (same(o, e)) return;
+    if (out.size() < CAP) out.push_back(e);
+    else overflow = true;
+  }
+  std::vector<Ev> eval_set(const NodeP & n, L t, L tie) const
+  {
+    std::vector<Ev> out;
+    switch (n->kind) {
+      case Node::Empty: out.push_back(constant(n->ga)); break;
+      case Node::Base: out.push_back(eval(n, t, 0, 0)); break;
+      case Node::CLocal:
+      case Node::CGlobal: {
+        const L t1 = tmax(n->a);
+        bool left = t < t1, right = !left;
+        if (fabsl(t - t1) <= tie) left = right = true;
+        if (t1 == 0 && segments(n->a) == 0) { left = false; right = true; }
+        if (left)
+          for (const Ev & e : eval_set(n->a, std::min(t, t1), tie)) push(out, e);
+        if (right) {
+          const std::vector<Ev> eb = eval_set(n->b, std::max<L>(0, t - t1), tie);
+          if (n->kind == Node::CGlobal) {
+            for (const Ev & e : eb) push(out, e);
+          } else {
+            const std::vector<Ev> ea = eval_set(n->a, t1, tie);  // candidates for x1.end()
+            for (const Ev & a : ea)
+              for (Ev e : eb) {
+                e.G = a.G * e.G;
+                push(out, e);
+              }
+          }
+        }
+        break;
+      }
+      case Node::Crop: {
+        const L len = n->tb - n->ta;
+        const L tt  = std::min(std::max<L>(t, 0), len);
+        std::vector<Ev> in = eval_set(n->a, n->ta + tt, tie);
+        if (t < 0 || t > len)
+          for (Ev & e : in) {
+            e.vel.setZero();
+            e.acc.setZero();
+          }
+        if (!n->localize) {
+          for (const Ev & e : in) push(out, e);
+        } else {
+          for (const Ev & s0 : eval_set(n->a, n->ta, tie))
+            for (Ev e : in) {
+              e.G = orc::inv(s0.G) * e.G;
+              push(out, e);
+            }
+        }
+        break;
+      }
+    }
+    return out;
+  }
+  // smallest distance of a library value to the candidate set (and the candidate that attains it)
+  L dist(const Mat & g, const std::vector<Ev> & c, const Ev ** best = nullptr) const
+  {
+    L d = INFINITY;
+    for (const Ev & e : c) {
+      const L x = orc::err_rel1(g, e.G);
+      if (x < d) {
+        d = x;
+        if (best) *best = &e;
+      }
+    }
+    return d;
+  }
   Mat end_value(const NodeP & n) const { return eval(n, tmax(n), -1, 0).G; }
   Mat start_value(const NodeP & n) const { return eval(n, 0, +1, 0).G; }
 };
@@ -183,7 +269,7 @@ static void spline_monitor(Report & rep)
   const LayoutP lp    = TI<G>::layout();
   const Layout & l    = *lp;
   const std::string T = TI<G>::name() + ".K" + std::to_string(K);
-  const Model M(l, K);
+  const Model M(l, K);  // (overflow flag is mutable)
 
   auto rand_tangent = [&](Rng & r, double sc) {
     Vec v = gen_tangent<S>(l, r, r.coin(0.2) ? R_BAND : R_MODERATE, r.coin(0.2) ? T_ZERO : T_SMALL);
@@ -278,18 +364,28 @@ static void spline_monitor(Report & rep)
         L vs0 = 1e-3L;
         for (int k = 0; k < 5; ++k) vs0 = std::max(vs0, orc::maxabs(M.eval(x.model, tm * (k + 0.5L) / 5, 0, 0).vel));
         const L delta = 1e-6L * std::max<L>(tm, 1e-3L), allow = 4 * vs0 * delta;
-        L es = INFINITY, ee = INFINITY;
-        for (int sd : {-1, +1})
-          for (int es2 : {-1, +1}) {
-            es = std::min(es, orc::err_rel1(sl, M.eval(x.model, 0, sd, tie0, es2).G));
-            ee = std::min(ee, orc::err_rel1(el_, M.eval(x.model, tm, sd, tie0, es2).G));
-          }
+        M.overflow = false;
+        L es = M.dist(sl, M.eval_set(x.model, 0, tie0)), ee = M.dist(el_, M.eval_set(x.model, tm, tie0));
         if (tm > delta) {
-          es = std::min(es, std::max<L>(0, orc::err_rel1(sl, M.eval(x.model, delta, 0, tie0).G) - allow));
-          ee = std::min(ee, std::max<L>(0, orc::err_rel1(el_, M.eval(x.model, tm - delta, 0, tie0).G) - allow));
+          es = std::min(es, std::max<L>(0, M.dist(sl, M.eval_set(x.model, delta, tie0)) - allow));
+          ee = std::min(ee, std::max<L>(0, M.dist(el_, M.eval_set(x.model, tm - delta, tie0)) - allow));
         }
-        rep.judge(T + ".start", st, es, 1e-9L, det);
-        rep.judge(T + ".end", st, ee, 1e-9L, det);
+        if (getenv("C12_DEBUG") && ee > 1e-9L) {
+          const auto cs = M.eval_set(x.model, tm, tie0);
+          fprintf(stderr, "[dbg] %s end: %zu candidates, dist %Lg; model kind %d\n", hist.c_str(), cs.size(), M.dist(el_, cs), int(x.model->kind));
+          if (x.model->kind == Node::CLocal) {
+            const auto ea = M.eval_set(x.model->a, M.tmax(x.model->a), tie0), eb = M.eval_set(x.model->b, M.tmax(x.model->b), tie0);
+            fprintf(stderr, "[dbg]  a-end candidates %zu, b-end candidates %zu\n", ea.size(), eb.size());
+            for (auto & a : ea) for (auto & b : eb) fprintf(stderr, "[dbg]   product dist %Lg\n", orc::err_rel1(el_, a.G * b.G));
+          }
+        }
+        if (M.overflow) {
+          rep.count("C12.candidate_overflow_skipped");
+          M.overflow = false;
+        } else {
+          rep.judge(T + ".start", st, es, 1e-9L, det);
+          rep.judge(T + ".end", st, ee, 1e-9L, det);
+        }
       }
       std::vector<L> kn;
       M.knots(x.model, 0, kn);
@@ -314,6 +410,10 @@ static void spline_monitor(Report & rep)
         const Ev e = M.eval(x.model, tm * (k + 0.5L) / 5, 0, 0);
         vscale     = std::max(vscale, orc::maxabs(e.vel));
       }
+      // every segment contributes (a short fast segment between long slow ones sets the scale of the rounding error
+      // of (t - t_i) / T_i for all derivatives)
+      for (size_t i = 1; i < kn.size(); ++i)
+        if (kn[i] > kn[i - 1]) vscale = std::max(vscale, orc::maxabs(M.eval(x.model, (kn[i] + kn[i - 1]) / 2, 0, 0).vel));
       const L tie = 4e-15L * std::max<L>(1, tm);
       for (double t : times) {
         Tangent vel, acc;
@@ -323,11 +423,12 @@ static void spline_monitor(Report & rep)
         for (L k : kn) dk = std::min(dk, fabsl(L(t) - k));
         const bool near_knot = dk <= 1e-9L * std::max<L>(tm, 1e-3L);
         auto dt = [&]() { return JObj().raw("run", det()).num("t", t).num("t_max_model", tm).done(); };
-        const Ev el = M.eval(x.model, t, -1, near_knot ? 1e-9L * std::max<L>(tm, 1e-3L) : tie), er = M.eval(x.model, t, +1, near_knot ? 1e-9L * std::max<L>(tm, 1e-3L) : tie);
-        L ev = std::min(orc::err_rel1(elemL(l, g), el.G), orc::err_rel1(elemL(l, g), er.G));
-        for (int sd : {-1, +1})
-          for (int es : {-1, +1})
-            if (sd != es) ev = std::min(ev, orc::err_rel1(elemL(l, g), M.eval(x.model, t, sd, near_knot ? 1e-9L * std::max<L>(tm, 1e-3L) : tie, es).G));
+        M.overflow = false;
+        const std::vector<Ev> cand = M.eval_set(x.model, t, near_knot ? 1e-9L * std::max<L>(tm, 1e-3L) : tie);
+        rep.count("C12.candidates_per_evaluation." + std::string(cand.size() == 1 ? "1" : (cand.size() <= 4 ? "2-4" : (cand.size() <= 64 ? "5-64" : "65+"))));
+        const Ev * bestp = &cand.front();
+        L ev             = M.dist(elemL(l, g), cand, &bestp);
+        const Ev el      = *bestp;
         if (near_knot || outside) {
           // several pieces can meet at a junction (crop boundaries on concat_global knots, zero-length operands): the value
           // there must be a one-sided limit of the curve, i.e. agree with the model just left or just right of t
@@ -335,7 +436,12 @@ static void spline_monitor(Report & rep)
           const L tc    = std::min<L>(std::max<L>(t, 0), tm);
           for (L tt : {tc - delta, tc + delta})
             if (tt >= 0 && tt <= tm)
-              for (int es : {-1, +1}) ev = std::min(ev, std::max<L>(0, orc::err_rel1(elemL(l, g), M.eval(x.model, tt, es, tie, es).G) - allow));
+              ev = std::min(ev, std::max<L>(0, M.dist(elemL(l, g), M.eval_set(x.model, tt, tie)) - allow));
+        }
+        if (M.overflow) {
+          rep.count("C12.candidate_overflow_skipped");
+          M.overflow = false;
+          continue;
         }
         rep.judge(T + ".value", st + (outside ? ",outside" : (near_knot ? ",knot" : ",interior")), ev, 1e-9L, dt);
         if (outside) {
